@@ -59,7 +59,7 @@ static int process_data(xfrm_stream_t *stream, const void *in,
 {
 	xfrm_xz_t *xz = (xfrm_xz_t *)stream;
 	lzma_ret ret_xz;
-	sqfs_u32 diff;
+	sqfs_u32 diff, out_diff;
 
 	if (!xz->initialized) {
 		if (xz->compress) {
@@ -79,7 +79,8 @@ static int process_data(xfrm_stream_t *stream, const void *in,
 	if (flush_mode < 0 || flush_mode >= XFRM_STREAM_FLUSH_COUNT)
 		flush_mode = XFRM_STREAM_FLUSH_NONE;
 
-	while (in_size > 0 && out_size > 0) {
+	while ((in_size > 0 || flush_mode == XFRM_STREAM_FLUSH_FULL) &&
+	       out_size > 0) {
 		xz->strm.next_in = in;
 		xz->strm.avail_in = in_size;
 
@@ -98,13 +99,23 @@ static int process_data(xfrm_stream_t *stream, const void *in,
 		in_size -= diff;
 		*in_read += diff;
 
-		diff = out_size - xz->strm.avail_out;
-		out = (char *)out + diff;
-		out_size -= diff;
-		*out_written += diff;
+		out_diff = out_size - xz->strm.avail_out;
+		out = (char *)out + out_diff;
+		out_size -= out_diff;
+		*out_written += out_diff;
 
-		if (ret_xz == LZMA_BUF_ERROR)
+		if (ret_xz == LZMA_BUF_ERROR) {
+			/* no more input will come, there is room for output,
+			   but we are still in the middle of a stream */
+			if (diff == 0 && out_diff == 0 &&
+			    !xz->compress && in_size == 0 &&
+			    flush_mode == XFRM_STREAM_FLUSH_FULL &&
+			    xz->strm.total_in > 0) {
+				return XFRM_STREAM_ERROR;
+			}
+
 			return XFRM_STREAM_BUFFER_FULL;
+		}
 
 		if (ret_xz == LZMA_STREAM_END) {
 			lzma_end(&xz->strm);
